@@ -362,3 +362,27 @@ func valsEq(a, b []*Val) bool {
 	}
 	return true
 }
+
+// ---- strconv.ParseFloat table for the model's decoders: every candidate text in the three modes
+func coqParseTable(texts []string) string {
+	seen := map[string]bool{}
+	var items []string
+	for _, t := range texts {
+		if seen[t] {
+			continue
+		}
+		seen[t] = true
+		f64, err64 := strconv.ParseFloat(t, 64)
+		f32, err32 := strconv.ParseFloat(t, 32)
+		opt := func(ok bool, bits uint64) string {
+			if !ok {
+				return "None"
+			}
+			return fmt.Sprintf("(Some %d%%N)", bits)
+		}
+		items = append(items, fmt.Sprintf("(0, %s, %s)", hx.CoqBytes(t), opt(err64 == nil, math.Float64bits(f64))))
+		items = append(items, fmt.Sprintf("(1, %s, %s)", hx.CoqBytes(t), opt(err32 == nil, uint64(math.Float32bits(float32(f32))))))
+		items = append(items, fmt.Sprintf("(2, %s, %s)", hx.CoqBytes(t), opt(err64 == nil, uint64(math.Float32bits(float32(f64))))))
+	}
+	return "[" + strings.Join(items, ";") + "]"
+}
